@@ -714,17 +714,71 @@ func runC06(c *Ctx) {
 			c.Violate("string-arm-dedent", "an arm of a string match dedented below the block that contains the match does not end that block (literal and variable rules are not tested against the offside line): the emitted Go is unchanged", saExample, false)
 		}
 	}
-	// observation (not a stream, no key): the dangling else ignores the offside line. A multi-line if without
-	// else that ends a then-block takes the else of the enclosing if although that else stands left of the
-	// block that contains the inner if; written on one line the inner if does not take it. The generators
-	// never end a then-block with a multi-line if without else (Layout.wf_ifrest: block_io prev = false).
+	// hazard "dangling-else-ignores-offside": a multi-line if without else that is the last statement of a
+	// then-block takes the else/elif of the enclosing if although that else stands left of the block that
+	// contains the inner if. The same program with the inner if on one line is the reference (there the
+	// else is outside the inner if's offside line and goes to the enclosing if). The generators never end a
+	// then-block with a multi-line if without else (Layout.wf_ifrest: block_io prev = false), so the main
+	// stream does not contain this shape.
 	{
-		hdr := "package main\nimport frt\nlet f (x:int) =\n  if x > 0 then\n    frt.Println \"a\"\n"
-		rest := "  else\n    frt.Println \"c\"\n  frt.Println \"d\"\n"
-		multi := h.transpile(hdr + "    if x > 1 then\n      frt.Println \"b\"\n" + rest)
-		one := h.transpile(hdr + "    if x > 1 then frt.Println \"b\"\n" + rest)
-		c.Res.Extra["observation_dangling_else"] = map[string]any{"inner_if_multi_line_ok": multi.Ok, "inner_if_multi_line_err": multi.Err,
-			"inner_if_one_line_ok": one.Ok, "same_output": multi.Ok && one.Ok && multi.Outs["gen_x.go"] == one.Outs["gen_x.go"]}
+		type dePair struct{ name, pre, multi, one, post string }
+		inner := func(ind string) (string, string) {
+			return ind + "if x > 1 then\n" + ind + "  frt.Println \"b\"\n", ind + "if x > 1 then frt.Println \"b\"\n"
+		}
+		m4, o4 := inner("    ")
+		m6, o6 := inner("      ")
+		m8, o8 := inner("        ")
+		hdr := "package main\nimport frt\n"
+		pairs := []dePair{
+			{"outer-else", hdr + "let f (x:int) =\n  if x > 0 then\n    frt.Println \"a\"\n", m4, o4,
+				"  else\n    frt.Println \"c\"\n  frt.Println \"d\"\n"},
+			{"outer-else-body-right-of-inner-block", hdr + "let f (x:int) =\n  if x > 0 then\n    frt.Println \"a\"\n", m4, o4,
+				"  else\n        frt.Println \"c\"\n  frt.Println \"d\"\n"},
+			{"outer-elif", hdr + "let f (x:int) =\n  if x > 0 then\n    frt.Println \"a\"\n", m4, o4,
+				"  elif x < 0 then\n    frt.Println \"e\"\n  else\n    frt.Println \"c\"\n  frt.Println \"d\"\n"},
+			{"nested-in-else-block", hdr + "let f (x:int) =\n  if x > 0 then\n    if x > 5 then\n      frt.Println \"m\"\n    else\n      frt.Println \"n\"\n", m6, o6,
+				"  else\n    frt.Println \"c\"\n  frt.Println \"d\"\n"},
+			{"in-match-arm", hdr + "type U =\n  | A of int\n  | B\nlet f (u:U) (x:int) =\n  match u with\n  | A i ->\n    if i > 0 then\n      frt.Println \"a\"\n", m6, o6,
+				"    else\n      frt.Println \"c\"\n  | B ->\n    frt.Println \"d\"\n"},
+			{"in-lambda-and-deeper", hdr + "import slice\nlet f (xs:[]int) (x:int) =\n  xs |> slice.Iter (fun y ->\n    if y > 0 then\n      if y > 1 then\n        frt.Println \"m\"\n", m8, o8,
+				"      else\n        frt.Println \"n\"\n    else\n      frt.Println \"c\")\n"},
+		}
+		deFail, dePass := 0, 0
+		var deExample map[string]any
+		for _, pr := range pairs {
+			one := h.transpile(pr.pre + pr.one + pr.post)
+			multi := h.transpile(pr.pre + pr.multi + pr.post)
+			c.Eval(pr.pre+pr.multi+pr.post, true)
+			c.Count("hazard:dangling-else:" + pr.name)
+			if multi.Died || one.Died {
+				c.Violate("crash", "fc crashed on a dangling-else hazard case", map[string]any{"src": pr.pre + pr.multi + pr.post}, false)
+				continue
+			}
+			if !one.Ok {
+				// the reference itself is not accepted: nothing can be compared (a harness defect or another change in fc)
+				c.Violate("dangling-else-reference", "the one-line reference of a dangling-else hazard case is rejected: "+one.Err,
+					map[string]any{"src": pr.pre + pr.one + pr.post, "err": one.Err}, true)
+				continue
+			}
+			if multi.Ok && multi.Outs["gen_x.go"] == one.Outs["gen_x.go"] {
+				dePass++
+				continue
+			}
+			deFail++
+			if deExample == nil {
+				deExample = map[string]any{"case": pr.name, "canonical_src": pr.pre + pr.one + pr.post, "layout_src": pr.pre + pr.multi + pr.post,
+					"layout_err": multi.Err, "layout_accepted_with_other_output": multi.Ok}
+			}
+		}
+		c.Res.Extra["hazard_dangling_else"] = map[string]int{"still_failing": deFail, "passing": dePass}
+		if deFail > 0 {
+			if c.IsKnown("dangling-else-ignores-offside") {
+				c.Known("dangling-else-ignores-offside")
+				c.Note("hazard dangling-else-ignores-offside still fails (%d of %d): e.g. %v: %v", deFail, deFail+dePass, deExample["case"], deExample["layout_err"])
+			} else {
+				c.Violate("dangling-else-ignores-offside", "a multi-line if without else that ends a then-block takes the else/elif of the enclosing if although it stands left of the inner if's block; with the inner if on one line the else goes to the enclosing if", deExample, false)
+			}
+		}
 	}
 	c.Lap("hazard")
 
